@@ -95,6 +95,15 @@ def accCand (evs : List TEv) : Option (Nat × String) :=
       | .error msg => some (k, msg)
   go {} 1 evs
 
+def accPrompt (evs : List TEv) : Option (Nat × String) :=
+  let rec go (s : PromptAcc.State) (k : Nat) : List TEv → Option (Nat × String)
+    | [] => none
+    | e :: es =>
+      match PromptAcc.step s e with
+      | .ok s' => go s' (k + 1) es
+      | .error msg => some (k, msg)
+  go {} 1 evs
+
 def sanitize (s : String) : String :=
   String.ofList (s.toList.map fun c => if c == '\t' || c == '\n' || c == '|' then ' ' else c)
 
@@ -104,7 +113,7 @@ def TraceAcc.finish (a : TraceAcc) : String :=
   let store := m.w.storeMismatch.reverse.map fun s => s!"STORE|store-model|0|{sanitize s}"
   let cov := m.w.cov.map fun (k, n) => s!"COV|{k}|{n}|"
   -- implementation models: does the model accept (= can it produce) this trace?
-  let acc := [("Own", accOwn a.evs.toList), ("Life", accLife a.evs.toList), ("HB", accHB a.evs.toList), ("Conn", accConn a.evs.toList), ("Val", accVal a.evs.toList), ("Lease", accLease a.evs.toList), ("Cand", accCand a.evs.toList)]
+  let acc := [("Own", accOwn a.evs.toList), ("Life", accLife a.evs.toList), ("HB", accHB a.evs.toList), ("Conn", accConn a.evs.toList), ("Val", accVal a.evs.toList), ("Lease", accLease a.evs.toList), ("Cand", accCand a.evs.toList), ("Prompt", accPrompt a.evs.toList)]
   let accItems := acc.map fun (name, r) =>
     match r with
     | none => s!"ACC|{name}|0|ok"
